@@ -93,6 +93,16 @@ class C18(Prop):
             n = rng.randint(1, 4); m = rng.randint(1, 7)
             P = [rng.sample(range(1, m + 1), m) for _ in range(n)]
             kind = ["consistent", "tied", "inverted", "near", "coarse"][i % 5]
+            if i % 10 == 7 and m >= 3:      # values of very different magnitude inside one row: one dominating valuation next to small ones, two of which are swapped
+                kind = "mixed_magnitude"; V = []
+                for row in P:
+                    vals = [rng.choice([1e9, 1e12, 1e300, 5e8])] + sorted([float(rng.randint(1, 9)) + j for j in range(m - 1)], reverse=True)
+                    v = [vals[r - 1] for r in row]
+                    a, b = [row.index(r) for r in rng.sample(range(2, m + 1), 2)]
+                    if rng.random() < 0.7: v[a], v[b] = v[b], v[a]
+                    V.append(v)
+                yield dict(entry="is_consistent_valuation_profile", family=kind, op="consistent", M=P, V=V, seed=i)
+                continue
             V = []
             for row in P:
                 if kind == "coarse":       # a few distinct values, unrelated to the ranking: harmless ties and clear inversions in one row
